@@ -21,6 +21,9 @@ struct Case {
     softmax: bool,
     /// activation the output layer is switched to with `set_activation` after construction (None = untouched)
     switch_to: Option<ActK>,
+    /// number of skip connections to try to add between layers with equal input sizes (chains included)
+    connects: usize,
+    cseed: u32,
 }
 
 fn decode(tape: &[u32]) -> Case {
@@ -45,7 +48,7 @@ fn decode(tape: &[u32]) -> Case {
     } else {
         None
     };
-    Case { spec, obj, tol, n, wseed: t.raw(), dseed: t.raw(), softmax, switch_to }
+    Case { spec, obj, tol, n, wseed: t.raw(), dseed: t.raw(), softmax, switch_to, connects: if t.chance(1, 3) { t.usize(1, 3) } else { 0 }, cseed: t.raw() }
 }
 
 fn check(case: &Case, ev: &mut CaseEv) -> CheckResult {
@@ -55,6 +58,37 @@ fn check(case: &Case, ev: &mut CaseEv) -> CheckResult {
     ev.class(format!("tol:{:e}", case.tol));
     ev.class(match case.n { 1..=63 => "N<64", 64 => "N=64", 65..=127 => "64<N<128", 128 => "N=128", _ => "N>128" });
     let mut net = build(spec).map_err(|p| Fail::new(format!("valid network rejected: {} ({:?})", p, spec)))?;
+    if case.connects > 0 {
+        // candidate pairs a < b whose inputs hold the same number of elements; prefer chains (b of one = a of the next)
+        let mut counts = Vec::new();
+        let mut cur = spec.input.clone();
+        for l in &spec.layers {
+            counts.push(count(&cur));
+            cur = model_out(&cur, l).unwrap();
+        }
+        let mut pairs: Vec<(usize, usize)> = Vec::new();
+        for a in 0..counts.len() {
+            for b in a + 1..counts.len() {
+                if counts[a] == counts[b] && !matches!(spec.layers[a], LayerSpec::Pool { .. }) {
+                    pairs.push((a, b));
+                }
+            }
+        }
+        let mut added = 0;
+        let mut mix = crate::tape::Mix::new(case.cseed as u64);
+        for _ in 0..case.connects {
+            if pairs.is_empty() {
+                break;
+            }
+            let (a, b) = pairs[mix.below(pairs.len() as u64) as usize];
+            if catch(std::panic::AssertUnwindSafe(|| net.connect(a, b))).is_ok() {
+                added += 1;
+            }
+        }
+        if added > 0 {
+            ev.class(format!("{} skip connection(s)", added));
+        }
+    }
     let ps = seeded_params(&net, spec, case.wseed, 1, 1.0);
     apply_params(&mut net, &ps);
     net.set_objective(lib_obj(case.obj), None);
@@ -204,7 +238,7 @@ impl Prop for C12 {
         Some(3)
     }
     fn rule(&self) -> String {
-        "tape-decoded network (1-2 generated layers of any kind incl. feedback blocks + a final dense layer with soft-max or another activation; in one case of four the output activation is changed afterwards with set_activation), objective of 7, tolerance in {0, 1e-6, 1e-3, 0.1, 1, 1e30}, N in {1, 2, 63, 64, 65, 127, 128, 129, 200} or random 1..300; targets derived from the predictions so that components lie exactly on / at the tolerance / inside / outside it and one-hot targets agree or disagree with the arg-max. Oracle from public pieces: loss = mean of objective(predict(x), t) (order-free tolerance), accuracy interval by the stated rule (components at exactly the tolerance and arg-max ties may count either way), predict_batch[i] == predict(x_i) bitwise in order, predict == last activation of forward. Non-trivial: N > 64, N mod 64 != 0 and both scoring outcomes present. Distinct = (architecture, objective, tolerance, N).".into()
+        "tape-decoded network (1-2 generated layers of any kind incl. feedback blocks + a final dense layer with soft-max or another activation; in one case of four the output activation is changed afterwards with set_activation; in one case of three up to three skip connections, chains included, are added), objective of 7, tolerance in {0, 1e-6, 1e-3, 0.1, 1, 1e30}, N in {1, 2, 63, 64, 65, 127, 128, 129, 200} or random 1..300; targets derived from the predictions so that components lie exactly on / at the tolerance / inside / outside it and one-hot targets agree or disagree with the arg-max. Oracle from public pieces: loss = mean of objective(predict(x), t) (order-free tolerance), accuracy interval by the stated rule (components at exactly the tolerance and arg-max ties may count either way), predict_batch[i] == predict(x_i) bitwise in order, predict == last activation of forward. Non-trivial: N > 64, N mod 64 != 0 and both scoring outcomes present. Distinct = (architecture, objective, tolerance, N).".into()
     }
     fn run_case(&self, tape: &[u32], ev: &mut CaseEv) -> CheckResult {
         check(&decode(tape), ev)
